@@ -47,6 +47,7 @@ def handle (line : String) : String :=
   | "c05witness" :: rest => c05witnessLine (" ".intercalate rest)
   | "c05chains" :: _ => c05chainsLine
   | "c05pass" :: rest => c05passLine (" ".intercalate rest)
+  | "c05prefix" :: rest => c05prefixLine (" ".intercalate rest)
   | "wt" :: rest => wtLine (" ".intercalate rest)
   | "c17witness" :: rest => c17witnessLine (" ".intercalate rest)
   | "c04pred" :: rest => c04predLine (" ".intercalate rest)
